@@ -118,6 +118,11 @@ def build_instances(tier):
                 continue
             inst.append(Instance(f'{u}.parse n={n}', h_unit, (u, n), native=n_unit,
                                  engine_kw={'max_ticks': 400 + 40 * n}))
+    # selector lists need 4 + 16 bytes before a second selector header is read in place: longer bodies for the TS payloads
+    for u in ('PayloadTSi', 'PayloadTSr'):
+        if u in UNITS:
+            for n in {'quick': (20, 24), 'thorough': (20, 21, 24, 28)}[tier]:
+                inst.append(Instance(f'{u}.parse n={n}', h_unit, (u, n), native=n_unit, engine_kw={'max_ticks': 400 + 40 * n}))
     known = sorted(int(k) for k in MODS['message'].Message.type_2_payload)
     for n in {'quick': (0, 27, 28, 29, 31), 'thorough': (0, 1, 16, 27, 28, 29, 30, 31)}[tier]:
         inst.append(Instance(f'Message.parse n={n}', h_msg, (n, None), native=n_msg, engine_kw={'max_ticks': 400 + 40 * n}))
@@ -133,6 +138,11 @@ def build_instances(tier):
                 inst.append(Instance(f'keyed Message.parse ct={ct} integ={integ} inner={it}', h_keyed, (ct, integ, it, 8),
                                      engine_kw={'max_ticks': 2000},
                                      must_reach=[('checksum rejected', lambda o: o[0] == 'proto')]))
+    # authentic Encrypted payloads of every short / odd body length: IV only, less than an IV, ciphertext not a multiple of the block
+    for ct in {'quick': (-16, -1, 0, 1, 15, 17, 32), 'thorough': tuple(range(-16, 2)) + (8, 15, 17, 31, 32, 33, 48)}[tier]:
+        for integ in {'quick': (12,), 'thorough': (2, 12, 14)}[tier]:
+            inst.append(Instance(f'keyed Message.parse ct={ct} integ={integ} inner=any', h_keyed, (ct, integ, None, max(8, ct - 8)),
+                                 engine_kw={'max_ticks': 2000, 'max_wall_s': 300}))
     # biggest first
     inst.sort(key=lambda i: (not i.name.startswith('keyed'), -(i.args[0] if isinstance(i.args[0], int) else i.args[1])))
     return inst
